@@ -44,14 +44,17 @@ def main():
     ninv = 40 if tier == 'quick' else 300
     codes2 = [('Toric2DCode', 'MatchingDecoder', ['XZZX', 'XY']), ('Planar2DCode', 'MatchingDecoder', ['XZZX']),
               ('RotatedPlanar2DCode', 'BeliefPropagationOSDDecoder', ['XZZX', 'XY']), ('Toric2DCode', 'UnionFindDecoder', []),
-              ('Color666PlanarCode', 'BeliefPropagationOSDDecoder', [])]
+              ('Color666PlanarCode', 'BeliefPropagationOSDDecoder', []),
+              # every registered decoder class appears once (the command adds decoder-specific parameters for some of them)
+              ('Toric2DCode', 'MemoryBeliefPropagationDecoder', ['XZZX'])]
     codes3 = [('Toric3DCode', 'SweepMatchDecoder', ['XZZX']), ('Planar3DCode', 'BeliefPropagationOSDDecoder', ['XZZX']),
               ('XCubeCode', 'BeliefPropagationOSDDecoder', ['XZZX']), ('RotatedPlanar3DCode', 'RotatedSweepMatchDecoder', ['XZZX']),
               # a deformation name with lower-case letters and a blank
-              ('RhombicPlanarCode', 'BeliefPropagationOSDDecoder', ['Checkerboard XZZX'])]
+              ('RhombicPlanarCode', 'BeliefPropagationOSDDecoder', ['Checkerboard XZZX']),
+              ('XCubeCode', 'XCubeMatchingDecoder', ['XZZX'])]
     prev = None
     # every (code class, deformation name) pair once, before the random sequences
-    forced = [(c_, d_, defs_, nm_, three_) for grp, three_ in ((codes2, False), (codes3, True)) for (c_, d_, defs_) in grp for nm_ in defs_]
+    forced = [(c_, d_, defs_, nm_, three_) for grp, three_ in ((codes2, False), (codes3, True)) for (c_, d_, defs_) in grp for nm_ in (defs_ or [None])]
     ninv += len(forced)
     with tempfile.TemporaryDirectory() as tmp:
         for i in range(ninv):
